@@ -421,5 +421,41 @@ pub fn maxtime(_args: &[String]) {
             }
         }
     }
+    // ties at the far end of time leave in scheduling order like ties anywhere else (one bucket as wide as time itself is
+    // the parameterisation whose window reaches Duration::MAX)
+    for burst in [2usize, 3, 6] {
+        s.behaviours += 1;
+        s.replays += 1;
+        watchdog::enter(|| json!({"maxtime_ties": burst}).to_string());
+        let r = catch_unwind(AssertUnwindSafe(|| {
+            let mut q: CQueue<usize> = CQueue::new(1, Duration::MAX);
+            let mut expected = Vec::new();
+            for i in 0..burst {
+                q.add(Duration::MAX, 100 + i);
+                q.add(Duration::from_secs(i as u64 + 1), i);
+            }
+            for i in 0..burst {
+                expected.push((i, Duration::from_secs(i as u64 + 1)));
+            }
+            for i in 0..burst {
+                expected.push((100 + i, Duration::MAX));
+            }
+            let mut got = Vec::new();
+            while !q.is_empty() {
+                got.push(q.fetch_next());
+            }
+            (expected, got)
+        }));
+        match r {
+            Err(_) => s.mismatch(json!({"field": "queue with ties at Duration::MAX: an operation panicked", "burst": burst})),
+            Ok((e, g)) => {
+                if e != g {
+                    s.mismatch(json!({"field": "queue with ties at Duration::MAX: fetch order", "expected": format!("{e:?}"), "got": format!("{g:?}"), "burst": burst}));
+                } else {
+                    s.checks += e.len() as u64;
+                }
+            }
+        }
+    }
     s.print();
 }
